@@ -41,3 +41,4 @@ CFG = dict(
             "stream to the handler and are outside the limits by design",
     timeout=900,
 )
+CFG["rule"] += ' z<size>b<cut>: one message compressed as two concatenated gzip members (large first member, last member of 3 or 12 bytes), sizes around and far above the limit, alone and between two small messages (gRPC family).'
